@@ -161,6 +161,7 @@ fn budget(prop: &str, tier: &str, seed: u64, scale: f64) -> Budget {
             sweeps.push(sweeps::c03_single_data_pixel(seed));
             sweeps.push(sweeps::c03_impostor_messages());
             sweeps.push(sweeps::c03_mimic_boundaries(seed));
+            sweeps.push(sweeps::c03_total_error_counts(seed));
             sweeps.push(sweeps::c03_edge_pairs(seed, if small { 10 } else { 255 }));
             if !quick && checked {
                 sweeps.push(sweeps::c03_sq10_weight2(seed));
@@ -196,6 +197,8 @@ fn budget(prop: &str, tier: &str, seed: u64, scale: f64) -> Budget {
             sweeps.push(sweeps::extreme_widths("C05"));
             sweeps.push(sweeps::framed_symbols("C05", seed));
             sweeps.push(sweeps::huge_blank_arrays("C05"));
+            sweeps.push(sweeps::margin_symbols("C05", seed));
+            sweeps.push(sweeps::c05_special_byte_in_ascii_run());
             sweeps.push(sweeps::c05_unicode_encodings());
         }
         "C08" => {
@@ -212,6 +215,7 @@ fn budget(prop: &str, tier: &str, seed: u64, scale: f64) -> Budget {
             sweeps.push(sweeps::extreme_widths("C08"));
             sweeps.push(sweeps::framed_symbols("C08", seed));
             sweeps.push(sweeps::huge_blank_arrays("C08"));
+            sweeps.push(sweeps::margin_symbols("C08", seed));
             sweeps.push(sweeps::c08_adjacent_fixed_pairs(seed));
             sweeps.push(sweeps::c08_surplus_codewords(seed));
         }
